@@ -701,7 +701,7 @@ package parser
 //@   hide expr
 //@   requires p != nil && pOK(p.pos, len(p.tokens)) && toksIn(p.source, p.tokens)
 //@   ensures pOK(p.pos, len(p.tokens)) && old(cur(p.pos, len(p.tokens))) <= cur(p.pos, len(p.tokens))
-//@   ensures @wf: result1 == nil ==> typeis(result0, "RenderProperty") && typeis(result0.Name, "Ident") && exprOK(p.source, result0.Value) && nodeOK(result0) && old(cur(p.pos, len(p.tokens))) < cur(p.pos, len(p.tokens))
+//@   ensures @wf: result1 == nil ==> typeis(result0, "RenderProperty") && typeis(result0.Name, "Ident") && exprOK(p.source, result0.Value) && propOK(result0) && old(cur(p.pos, len(p.tokens))) < cur(p.pos, len(p.tokens))
 //@   ensures @count: result1 == nil ==> within(cur(p.pos, len(p.tokens)) - old(cur(p.pos, len(p.tokens))), ntok(result0), slack(result0))
 //@   assigns p.pos
 
@@ -717,7 +717,7 @@ package parser
 //@ loop 1
 //@   invariant spanValid(op.With) && within(cur(p.pos, len(p.tokens)) - old(cur(p.pos, len(p.tokens))), 3 + ntokL(op.Props, len(op.Props)) + len(op.Props), slackL(op.Props, len(op.Props)))
 //@   invariant pOK(p.pos, len(p.tokens)) && old(cur(p.pos, len(p.tokens))) <= cur(p.pos, len(p.tokens))
-//@   invariant typeis(op.ChartType, "Ident") && propsWF(op.Props, len(op.Props)) && nodeOKList(op.Props, len(op.Props))
+//@   invariant typeis(op.ChartType, "Ident") && propsWF(op.Props, len(op.Props)) && propsOKList(op.Props, len(op.Props))
 //@   decreases len(p.tokens) + 1 - p.pos
 
 //@ func parser.(*parser).projectOperator
@@ -765,7 +765,7 @@ package parser
 //@   requires p != nil && pOK(p.pos, len(p.tokens)) && toksIn(p.source, p.tokens)
 //@   ensures pOK(p.pos, len(p.tokens)) && old(cur(p.pos, len(p.tokens))) <= cur(p.pos, len(p.tokens))
 //@   ensures @notfound: nf(result1) ==> cur(p.pos, len(p.tokens)) == old(cur(p.pos, len(p.tokens))) && result0 == nil
-//@   ensures @wf: result1 == nil ==> typeis(result0, "LetStatement") && typeis(result0.Name, "Ident") && exprOK(p.source, result0.X) && shapeOK(result0)
+//@   ensures @wf: result1 == nil ==> typeis(result0, "LetStatement") && typeis(result0.Name, "Ident") && exprOK(p.source, result0.X) && shapeOK(result0) && walkWF(result0)
 //@   ensures @count: result1 == nil ==> within(cur(p.pos, len(p.tokens)) - old(cur(p.pos, len(p.tokens))), ntok(result0), slack(result0))
 //@   assigns p.pos
 
@@ -780,10 +780,11 @@ package parser
 //@   function parseOf
 //@   ensures @wf: result1 == nil ==> stmtsWF(query, result0, len(result0))
 //@   ensures @shape: result1 == nil ==> shapeOKList(result0, len(result0))
+//@   ensures @walkable: result1 == nil ==> walkWFL(result0, len(result0))
 //@   ensures @count: result1 == nil ==> within(len(scanOf(query)), ntokL(result0, len(result0)) + nsemiT(scanOf(query), len(scanOf(query))), slackL(result0, len(result0)))
 //@ loop 1
 //@   invariant p != nil && p.source == query && toksIn(query, p.tokens) && pOK(p.pos, len(p.tokens)) && p.pos <= len(p.tokens)
-//@   invariant resultError == nil ==> stmtsWF(query, result, len(result)) && shapeOKList(result, len(result))
+//@   invariant resultError == nil ==> stmtsWF(query, result, len(result)) && shapeOKList(result, len(result)) && walkWFL(result, len(result))
 //@   invariant p.tokens == scanOf(query)
 //@   invariant resultError == nil ==> within(p.pos, ntokL(result, len(result)) + nsemiT(p.tokens, p.pos), slackL(result, len(result)))
 //@   invariant forall(r, 0, old(alloc()), fieldheap("parser", "pos")[r] == old(fieldheap("parser", "pos"))[r])
